@@ -35,13 +35,13 @@ type rlpTree struct {
 }
 
 type rlpFail struct {
-	Fn      string `json:"fn"`      // decodeString | decodeList | recursive
-	Level   string `json:"level"`   // go | interp | vm
-	Dev     string `json:"dev"`     // crash | accepts-rejected-input | rejects-canonical-input | wrong-value | non-user-error
-	Input   string `json:"input"`   // hex
+	Fn      string `json:"fn"`    // decodeString | decodeList | recursive
+	Level   string `json:"level"` // go | interp | vm
+	Dev     string `json:"dev"`   // crash | accepts-rejected-input | rejects-canonical-input | wrong-value | non-user-error
+	Input   string `json:"input"` // hex
 	Len     int    `json:"len"`
-	Why     string `json:"why"`     // the specification's reason for rejecting ("ok" when it accepts)
-	Cls     string `json:"cls"`     // class of the declared length
+	Why     string `json:"why"` // the specification's reason for rejecting ("ok" when it accepts)
+	Cls     string `json:"cls"` // class of the declared length
 	Msg     string `json:"msg"`
 	Harness bool   `json:"harness,omitempty"`
 }
